@@ -83,7 +83,7 @@ class C06(CheckBase):
             spt = 10 if enc == 'fm' else rng.choice([16, 18])
             cls = rng.weighted([(4, 'G'), (6, 'S')])
             return {'level': 'track', 'enc': enc, 'spt': spt, 'cyl': rng.below(80), 'head': rng.below(2), 'seed': rng.below(1 << 30),
-                    'class': cls, 'ntracks': 12, 'damage_seed': rng.below(1 << 30), 'altmarks': rng.chance(0.3)}
+                    'class': cls, 'ntracks': 12, 'damage_seed': rng.below(1 << 30), 'altmarks': rng.chance(0.3), 'forge': rng.chance(0.2)}
         mode = rng.weighted([(3, 'one-track'), (2, 'few-tracks'), (4, 'radial'), (4, 'reid'), (4, 'catkill')])
         if mode == 'catkill':
             fc = fluxwork.gen_fluxcase(rng, small=True, sides=rng.weighted([(1, 1), (4, 2)]), container=rng.weighted([(2, 'mfm'), (1, 'hfe1'), (1, 'hfe3')]))
@@ -162,10 +162,23 @@ class C06(CheckBase):
             # the decoders yield data sectors only, so these must never be returned
             mark = 0xFB if not case.get('altmarks') or rng.chance(0.75) else rng.choice([0xF8, 0xF8, 0xF9, 0xFA])
             secs.append((r, payload, mark))
+        forged = {}
+        if case.get('forge'):
+            # one or two sectors carry a checksum computed the wrong way (over the wrong span, wrong initial value,
+            # swapped, ...): only the real CRC-16 makes a field good
+            frng = Rng.derive(case['seed'], 'forge')
+            for _ in range(frng.randint(1, 2)):
+                i = frng.below(len(secs))
+                r, payload, mark = secs[i][:3]
+                alts = flux.wrong_crcs(enc, mark, payload)
+                how = frng.choice(sorted(alts))
+                secs[i] = (r, payload, mark, None, alts[how])
+                forged[r] = how
+                out.probe('forged-crc:' + how)
         cells, regions = flux.encode_track(enc, cyl, head, secs, params)
-        recorded = {r: p for r, p, m in secs if m == 0xFB}
-        by_payload = {p: r for r, p, m in secs}
-        nonfb = sum(1 for r, p, m in secs if m != 0xFB)
+        recorded = {t[0]: t[1] for t in secs if t[2] == 0xFB and t[0] not in forged}
+        by_payload = {t[1]: t[0] for t in secs}
+        nonfb = sum(1 for t in secs if t[2] != 0xFB)
         if nonfb:
             out.probe('tracks-with-non-FB-data-marks')
         drng = Rng.derive(case['damage_seed'], 'damage')
